@@ -3,12 +3,13 @@ contract("ast.unparse", assumed=True, params=dict(ast_obj=Ref), result=Str, note
 BLK = "func_adl_xAOD.common.statement."
 _THROW = "throw std::runtime_error(\"First() called on an empty sequence ("
 contract(TR + "query_ast_visitor.call_First", props=["C04", "C01"],
+         replay={"code_using_the_first_element_runs_inside_the_loops_that_produce_it": "first_of_sequences"},
          params=dict(self=QV, node=Ref, args=TList(Ref)),
          requires=CVC_REQUIRES + [("one_source", "len(args) == 1 and args[0] != None and live(args[0]) and node != None and live(node)"),
                                   ("cursor", "len(cursor(self)) >= 1 and all(b != None and live(b) for b in cursor(self))")],
          modifies=CVC_MODIFIES + ["_expr", "_target", "_value", "_line", "_initial_value", "_expression", "_scope", "_cpp_type"],
          may_raise=["Exception"], strict=False,
-         local_sorts=dict(g_out=RefOf(BLOCK), g_at=RefOf(BLOCK), g_n_out=Int, is_first=VAL, s=RefOf(BLOCK), fail=RefOf(BLOCK)),
+         local_sorts=dict(g_out=RefOf(BLOCK), g_at=RefOf(BLOCK), g_n_out=Int, is_first=VAL, s=RefOf(BLOCK), fail=RefOf(BLOCK), sv=REP),
          ghost_init=["g_out = None", "g_at = None", "g_n_out = 0"],
          ghost={"after:outside_block_scope.declare_variable(is_first)": ["g_out = top_block(stack_of(outside_block_scope))"],
                 "after:self._gc.add_statement(s)": ["g_at = cursor(self)[len(cursor(self)) - 2]"],
@@ -28,5 +29,8 @@ contract(TR + "query_ast_visitor.call_First", props=["C04", "C01"],
                                                "cls_is(field(final_fail, '_statements')[0], '" + BLK + "arbitrary_statement') and "
                                                "startswith(field(field(final_fail, '_statements')[0], '_line'), '" + _THROW.replace("\\", "\\\\").replace("'", "\\'") + "')"),
              ("thrown_after_the_loop_where_the_flag_lives@C04", "final_g_n_out >= 1 and field(final_g_out, '_statements')[final_g_n_out - 1] == final_fail"),
+             ("code_using_the_first_element_runs_inside_the_loops_that_produce_it@C04,C01",
+              "implies(isinst(final_sv, '" + P + "cpp_representation.cpp_sequence') and field(final_sv, '_iterator') != None and scope_of(field(final_sv, '_iterator')) != None and "
+              "not is_top(scope_of(field(final_sv, '_iterator'))), prefix_of(stack_of(scope_of(field(final_sv, '_iterator'))), cursor(self)))"),
              ("has_rep", "rep_of(node) != None"),
          ])
